@@ -84,8 +84,16 @@ pub mod fs {
     use std::os::unix::ffi::OsStrExt;
     use std::path::{Path, PathBuf};
 
-    fn injected() -> io::Error {
-        io::Error::new(io::ErrorKind::Other, "injected fault")
+    /// the injected error; its kind varies with the operation index so that code which treats some kinds specially
+    /// (retries, "not found" shortcuts) is exercised too — never `Interrupted` (std retries it) nor `NotFound`
+    fn injected(index: usize) -> io::Error {
+        let kind = match index % 4 {
+            0 => io::ErrorKind::Other,
+            1 => io::ErrorKind::TimedOut,
+            2 => io::ErrorKind::PermissionDenied,
+            _ => io::ErrorKind::WouldBlock,
+        };
+        io::Error::new(kind, "injected fault")
     }
 
     pub enum Kind<'a> {
@@ -144,7 +152,7 @@ pub mod fs {
 
         if state.config.faults.contains(&index) {
             state.log.push(format!("{} err", head));
-            return Err(injected());
+            return Err(injected(index));
         }
 
         if let Some((partial_index, partial_bytes)) = state.config.partial {
@@ -155,7 +163,7 @@ pub mod fs {
                 } else {
                     state.log.push(format!("{} err", head));
                 }
-                return Err(injected());
+                return Err(injected(index));
             }
         }
 
